@@ -155,11 +155,19 @@ void Format::formatDateTime( std::ostream& dest, const Field& field_def,
    // format date, time or timestamp
    auto const  use_format_str = field_def.mConstant.empty() ? format_str :
                                 field_def.mConstant.c_str();
-   char        timestamp_str[ 128];
+   auto const  broken_down = ::localtime( &timestamp);
+   std::string timestamp_str( 128, '\0');
+   size_t      length = 0;
 
 
-   ::strftime( timestamp_str, sizeof( timestamp_str) - 1, use_format_str,
-               ::localtime( &timestamp));
+   // strftime() returns 0 and leaves the buffer contents undefined when the
+   // result does not fit: retry with a bigger buffer
+   while (((length = ::strftime( &timestamp_str[ 0], timestamp_str.size(),
+                                 use_format_str, broken_down)) == 0)
+          && (timestamp_str.size() < 65536))
+      timestamp_str.resize( timestamp_str.size() * 2);
+
+   timestamp_str.resize( length);
    append( dest, field_def, timestamp_str);
 
 } // Format::formatDateTime
